@@ -2,11 +2,12 @@
 # Confirms a seeded change independently: applies <dir>/patch.diff to a scratch export of /repo HEAD (outside /repo
 # and /verif), runs the repository's tests (must pass), then the demonstration with and without the change.
 # usage: [CONFIRM_ENV='GOARCH=386'] tools/confirm_seed.sh <dir-with-patch.diff-and-demo_test.go>
+# (CONFIRM_DEST=. : the demonstration belongs in the module root although its package clause does not say so)
 # (CONFIRM_ENV: extra environment for the two runs of the demonstration, for platform-dependent changes)
 export GOFLAGS=-mod=mod GOPROXY=off GOSUMDB=off GOTOOLCHAIN=local
 d=$(cd "$1" && pwd); id=$(basename "$d"); c=/tmp/confirm-$$-$id
 rm -rf "$c"; mkdir -p "$c"; (cd /repo && git archive HEAD | tar -x -C "$c")
-dest=tests
+dest=${CONFIRM_DEST:-tests}
 case "$(grep -m1 '^package' "$d/demo_test.go")" in
   "package secp256k1") dest=. ;;
   "package field"|"package field_test") dest=internal/field ;;
